@@ -141,12 +141,17 @@ def run_task(task):
         return pts
 
     try:
-        n, ex = enumerate_scripts(run, budget_kinds={"randint", "uniform"}, k=task["k"], max_exec=task.get("max_exec"))
+        import time as _t
+
+        dl = (_t.time() + task["time_cap"]) if task.get("time_cap") else None
+        if task.get("deadline_abs"):
+            dl = min(dl, task["deadline_abs"]) if dl else task["deadline_abs"]
+        n, ex = enumerate_scripts(run, budget_kinds={"randint", "uniform"}, k=task["k"], max_exec=task.get("max_exec"), deadline=dl)
     except _Stop:
         ex = False
     if not ex:
         st.exhaustive = False
-        st.caps.append({"task": task.get("label"), "executions_done": st.executions})
+        st.caps.append({"task": task.get("label"), "executions_done": st.executions, "cap": "max_exec/time_cap"})
     return st
 
 
